@@ -265,7 +265,8 @@ func cmdHoldemViews(args []string) {
 			}
 			gs := g.GetState()
 			views := []M{}
-			for who := -1; who < len(gs.Players); who++ {
+			// (-1: the observer; 0..n-1: the players; n: AsPlayer for a seat that does not exist - nobody's cards may show)
+			for who := -1; who <= len(gs.Players); who++ {
 				p, found, _ := viewOf(gs, who)
 				c := cloneGS(gs)
 				if who >= 0 {
